@@ -6,7 +6,9 @@ COMMON_TRUSTED = [
     "hand-written Gallina model tied to /repo by the correspondence run (Go harness on go1.26.8, testing/synctest where a clock is involved)",
     "gen/ (Go AST reader) for the constants in coq/Gen/Generated.v",
     "gen/translate.go (Go decision code -> Gallina, coq/Gen/GeneratedTr.v): conditions and branch structure translated semantically (integer conversions as identity, "
-    "== on interned strings / enums as integer equality), effect statements matched by text against a white list and interpreted by the model's own updates",
+    "== on interned strings / enums as integer equality; which case of a select / type switch is taken is an input atom; an early continue of the unit's own loop equals reaching "
+    "the end of its body), effect statements matched by text against a white list and interpreted by the model's own updates; gen/wiring.go reads which pre-/post-processors "
+    "each flow constructor hands to its observer (call names in source order)",
     "Go harness generators, fakes and interning; goccy/go-json, encoding/json, big.Int",
 ]
 
